@@ -323,3 +323,67 @@ pub fn index_of_small(_s: &tyme4rs::tyme::AbstractCulture, index: isize, size: u
   let n = size as i32;
   (((index as i32 % n) + n) % n) as usize
 }
+
+// ---- pillars built by name: format sink + decode model of SixtyCycle::from_name -------------------------------------
+/// `std::fmt::format` on data paths: the real `Display` code writes into a fixed 24-byte buffer through
+/// `core::fmt::write`; longer output is truncated (only error messages are longer) — consumers check the length.
+#[cfg(kani)]
+struct Sink { buf: [u8; 24], len: usize }
+#[cfg(kani)]
+impl core::fmt::Write for Sink {
+  fn write_str(&mut self, s: &str) -> core::fmt::Result {
+    let b = s.as_bytes();
+    let mut k = 0;
+    while k < b.len() {
+      if self.len < 24 { self.buf[self.len] = b[k]; self.len += 1; }
+      k += 1;
+    }
+    Ok(())
+  }
+}
+#[cfg(kani)]
+pub fn fmt_sink(args: std::fmt::Arguments<'_>) -> String {
+  let mut s = Sink { buf: [0u8; 24], len: 0 };
+  let _ = core::fmt::write(&mut s, args);
+  let mut v: Vec<u8> = Vec::with_capacity(24);
+  let mut k = 0;
+  while k < 24 { if k < s.len { v.push(s.buf[k]); } k += 1; }
+  unsafe { String::from_utf8_unchecked(v) }
+}
+
+/// Model of `SixtyCycle::from_name`: decode the stem character and the branch character by byte comparison with the
+/// source's own name tables, combine them by the Chinese remainder theorem, build the pillar by index.  Panics
+/// (like the real function) if a character is unknown or the parities differ.  Justified by lemma T60 (the sixty
+/// pillar names are stem[k mod 10] ++ branch[k mod 12], all characters distinct, 3 bytes each) + the first-match
+/// search of `LoopTyme::new` (20 lines, trusted; exercised by most of the test suite).
+#[cfg(kani)]
+pub fn sixty_from_name_model(name: &str) -> tyme4rs::tyme::sixtycycle::SixtyCycle {
+  use tyme4rs::tyme::sixtycycle::{SixtyCycle, EARTH_BRANCH_NAMES, HEAVEN_STEM_NAMES};
+  let b = name.as_bytes();
+  assert!(b.len() == 6, "pillar name is not two 3-byte characters");
+  let mut s: i64 = -1;
+  let mut k = 0;
+  while k < 10 {
+    let n = HEAVEN_STEM_NAMES[k].as_bytes();
+    if n[0] == b[0] && n[1] == b[1] && n[2] == b[2] { s = k as i64; }
+    k += 1;
+  }
+  let mut e: i64 = -1;
+  let mut k = 0;
+  while k < 12 {
+    let n = EARTH_BRANCH_NAMES[k].as_bytes();
+    if n[0] == b[3] && n[1] == b[4] && n[2] == b[5] { e = k as i64; }
+    k += 1;
+  }
+  assert!(s >= 0 && e >= 0, "unknown stem or branch character");
+  assert!(s % 2 == e % 2, "illegal pillar: stem and branch of different polarity");
+  SixtyCycle::from_index(((6 * s + 55 * e) % 60) as isize)
+}
+
+/// `LunarDay::from_ymd` in harnesses where the constructor must not be reached at all (refusal of invalid clock fields)
+#[cfg(kani)]
+pub fn lunar_day_never(_y: isize, _m: isize, _d: usize) -> tyme4rs::tyme::lunar::LunarDay {
+  assert!(false, "the lunar day was constructed although the request had to be refused first");
+  kani::assume(false);
+  unreachable!()
+}
